@@ -372,7 +372,7 @@ def from_Composition(composition, width=80):
     # Some variables
     w = _get_width(width)
     barindex = 0
-    bars = width / w
+    bars = width // w
     lastlen = 0
     maxlen = max([len(x) for x in composition.tracks])
 
@@ -454,9 +454,9 @@ def _get_qsize(tuning, width):
 
 def _get_width(maxwidth):
     """Return the width of a single bar, when width of the page is given."""
-    width = maxwidth / 3
+    width = maxwidth // 3
     if maxwidth <= 60:
         width = maxwidth
     elif 60 < maxwidth <= 120:
-        width = maxwidth / 2
+        width = maxwidth // 2
     return width
